@@ -15,13 +15,12 @@ func floorDiv(x, y int) int {
 	if x == math.MinInt && y == -1 {
 		return math.MinInt // handle integer overflow case
 	}
-	if x > 0 && y > 0 || x < 0 && y < 0 {
-		// signs of x and y are the same
-		return x / y // integer division in Go rounds toward 0
-	} else {
-		// signs of x and y are different
-		return x/y - 1 // round toward negative infinity
+	q := x / y // integer division in Go rounds toward 0
+	if x%y != 0 && (x < 0) != (y < 0) {
+		// inexact quotient of operands with different signs: round toward negative infinity
+		q--
 	}
+	return q
 }
 
 // BitSet represents a set of Bytes that can be set and cleared.
